@@ -266,6 +266,7 @@ impl<'a> Model<'a> {
         }
 
         for idx in &probes {
+            crate::common::beat();
             let probe = w.space.probe(idx);
             let req = probe.to_request(rc);
             let got = ids_of(&s.router.match_request(&req));
